@@ -22,6 +22,9 @@ type Case struct {
 	Tx      float64       `json:"tx,omitempty"`
 	Ty      float64       `json:"ty,omitempty"`
 	Orbit   string        `json:"orbit,omitempty"` // generator label
+	// RingOrder[i], when present, is the order in which the rings of polygon i are handed to geom (Lattice keeps the
+	// shell first for the oracle): the library does not ask for the shell to come first
+	RingOrder [][]int `json:"ring_order,omitempty"`
 	// line
 	Lines [][]vkit.P2 `json:"lines,omitempty"`
 	Pt    vkit.P2     `json:"pt,omitempty"`
@@ -161,6 +164,12 @@ func latticePolygon(t *rapid.T, ox int) [][]vkit.P2 {
 				continue
 			}
 			x0, x1 := k*cw+1, (k+1)*cw-1
+			if x1-x0 >= 5 && H >= 8 && rapid.IntRange(0, 3).Draw(t, "cornerpair") == 2 {
+				// two disjoint holes with NESTED bounding boxes: a right triangle filling the lower-left half of the cell and
+				// a small square in the upper-right corner that the triangle leaves free
+				rings = append(rings, []vkit.P2{ip(ox+x0, 1), ip(ox+x1, 1), ip(ox+x0, H-1)}, []vkit.P2{ip(ox+x1-1, H-2), ip(ox+x1, H-2), ip(ox+x1, H-1), ip(ox+x1-1, H-1)})
+				continue
+			}
 			var hp []vkit.P2
 			nh := rapid.IntRange(3, 6).Draw(t, "nh")
 			for i := 0; i < nh; i++ {
@@ -217,6 +226,14 @@ func gen(t *rapid.T) Case {
 				}
 			}
 			c.Lattice = append(c.Lattice, rings)
+			order := make([]int, len(rings))
+			for j := range order {
+				order[j] = j
+			}
+			if len(rings) >= 2 && rapid.IntRange(0, 3).Draw(t, "ringorder") == 1 {
+				order = rapid.Permutation(order).Draw(t, "ringperm")
+			}
+			c.RingOrder = append(c.RingOrder, order)
 		}
 		c.S, c.Tx, c.Ty = 1, 0, 0
 		if rapid.IntRange(0, 2).Draw(t, "xf") == 0 {
@@ -309,7 +326,7 @@ func runPoly(c Case) (v vkit.Verdict) {
 	maxabs := 0.0
 	var mp geom.MultiPolygon
 	memberA2 := []*big.Int{}
-	for _, rings := range c.Lattice {
+	for pi, rings := range c.Lattice {
 		var pg geom.Polygon
 		mA2 := new(big.Int)
 		shellSign := 0
@@ -349,6 +366,16 @@ func runPoly(c Case) (v vkit.Verdict) {
 				maxabs = math.Max(maxabs, math.Max(math.Abs(p.X), math.Abs(p.Y)))
 			}
 			pg = append(pg, g)
+		}
+		if pi < len(c.RingOrder) && len(c.RingOrder[pi]) == len(pg) {
+			perm := make(geom.Polygon, len(pg))
+			for k, j := range c.RingOrder[pi] {
+				perm[k] = pg[j]
+				if k != j {
+					v.Class("rings_in_drawn_order")
+				}
+			}
+			pg = perm
 		}
 		memberA2 = append(memberA2, mA2)
 		mp = append(mp, pg)
